@@ -20,11 +20,20 @@ CLAIM = dict(
          "unquote(quote s) = s and int(str n) = n; C04_build_then_match / C04_match_then_build (in a map whose rules have distinct literal first "
          "segments the delivered built URL is matched by the building rule with exactly the built values, and rebuilding from the match gives "
          "the same URL), C04_build_match_build_subdomain (the same with a subdomain / host part on the rules and with float values, read through the "
-         "float contract). Tied to the code by the regenerated safe= strings, regex texts and decision functions of coq/C03/Gen.v and by "
+         "float contract); the rule factories as functions on rules (coq/C04/Factories.v: Submount, Subdomain, EndpointPrefix, RuleTemplate): "
+         "C04_build_then_match_sole (the map-level theorem for any map in which the building rule is the only rule admitting the built path), "
+         "C04_submount_build_then_match / C04_admits_submount / C04_sole_admitter_submount, C04_subdomain_factory / C04_admits_subdomain, "
+         "C04_endpoint_prefix, C04_template_subst; and the query extras of Rule.build(append_unknown=True): C04_build_match_extras (the built "
+         "text is path + '?' + urlencode of the extra items - list values per element, None dropped, sorted under Map.sort_parameters -; the "
+         "path matches back to the values and parse_qsl of the query string returns the extras, through C02's urlencode / parse_qsl model and "
+         "its round-trip theorem). Tied to the code by the regenerated safe= strings, regex texts and decision functions of coq/C03/Gen.v and by "
          "differential execution (extracted model vs werkzeug) of to_url / unquote / to_python, MapAdapter.build and build-then-match.",
     note="Trusted: as C03; float(str(x)) = x and the shape of str(x) on positional floats are a Section contract validated by the harness; "
-         "uuid values are carried as their 32 hex digits; query-string extras (werkzeug.urls._urlencode / parse_qsl) and maps built through "
-         "Submount/Subdomain factories are exercised by the harness only (the model sees the flattened rules); host_matching builds are modelled "
+         "uuid values are carried as their 32 hex digits; maps built through the factories are compared with the model's factories applied to the "
+         "inner rules, builds with extras with adapter_build_q; RuleTemplate is modelled for braced placeholders and $$ in the rule text (the "
+         "unbraced form, templated defaults / endpoints / subdomains are outside), sort_key for itemgetter(0) and the natural order of string "
+         "items, EndpointPrefix as an injective renaming of endpoint numbers; that a built path has no '?' is a hypothesis of the split clause "
+         "of C04_build_match_extras (AnyConverter.to_url does not quote its items); host_matching builds are modelled "
          "and compared (MapAdapter._partial_build's preference for the bound host), the map-level theorems cover host parts through dom_built.",
     design="6/C04")
 
@@ -160,32 +169,58 @@ def gen_map_c04(rng) -> MapSpec:
     return ms
 
 
-def make_with_factories(ms: MapSpec):
-    """the same map built through Submount / Subdomain rule factories (Rule.empty() copies): (Map, by_obj)"""
-    from werkzeug.routing import Map, Rule, Subdomain, Submount
-    facs = []
+def make_with_factories(ms: MapSpec, rng=None):
+    """the same map built through Submount / Subdomain / EndpointPrefix / RuleTemplate rule factories (Rule.empty() copies):
+    (Map, by_obj, ms', fenc) - ms' is the flattened map the factories denote (endpoints renumbered under EndpointPrefix),
+    fenc the rules as the model driver takes them: the inner rule and the factory operations coq/C04/Factories.v applies."""
+    from werkzeug.routing import EndpointPrefix, Map, Rule, RuleTemplate, Subdomain, Submount
+    prefix = rng is not None and rng.random() < 0.4 and all(r.endpoint < 100 for r in ms.rules)
+    if prefix:
+        ms = replace(ms, rules=tuple(replace(r, endpoint=r.endpoint + 100) for r in ms.rules))
+    facs, encs = [], []
     for r in ms.rules:
+        ops = []
         first = r.segs[0].lit
         rest_items = [s_.text() for s_ in r.segs[1:]] + ([f"<path:{r.tail}>"] if r.tail else [])
-        kw = dict(endpoint=f"e{r.endpoint}", methods=list(r.methods) if r.methods is not None else None,
+        ep_name = f"{r.endpoint - 100:02d}" if prefix else f"e{r.endpoint}"
+        kw = dict(endpoint=ep_name, methods=list(r.methods) if r.methods is not None else None,
                   defaults=dict(r.defaults) if r.defaults else None)
-        if not rest_items and not r.branch:
+        inner_spec = replace(r, dom=Seg(lit=""), endpoint=r.endpoint - 100 if prefix else r.endpoint)
+        plain = "$" not in r.string() and "$" not in r.dom.text() and not any(isinstance(v, str) and "$" in v for _, v in r.defaults)
+        if rng is not None and plain and rng.random() < 0.3:
+            # RuleTemplate: the first literal (or the first two, as one value with a slash) comes from the context
+            n_lit = 2 if len(r.segs) > 1 and r.segs[1].lit is not None and rng.random() < 0.5 else 1
+            value = "/".join(s_.lit for s_ in r.segs[:n_lit])
+            items = ["${p}"] + [s_.text() for s_ in r.segs[n_lit:]] + ([f"<path:{r.tail}>"] if r.tail else [])
+            inner = Rule("/" + "/".join(items) + ("/" if r.branch else ""), **kw)
+            fac = RuleTemplate([inner])(p=value)
+            inner_spec = replace(inner_spec, segs=(Seg(lit="${p}"),) + tuple(r.segs[n_lit:]))
+            ops.append(f"T{cps('p')}={cps(value)}")
+        elif not rest_items and not r.branch:
             inner = Rule(r.string(), **kw)
             fac = inner
         else:
             inner = Rule("/" + "/".join(rest_items) + ("/" if r.branch and rest_items else ""), **kw)
             fac = Submount("/" + first, [inner])
+            inner_spec = replace(inner_spec, segs=tuple(r.segs[1:]), branch=bool(r.branch and rest_items))
+            ops.append("M" + Seg(lit=first).enc())
         d = r.dom.text()
         if d:
             fac = Subdomain(d, [fac])
+            ops.append("D" + r.dom.enc())
+        if prefix:
+            ops.append("E100")
         facs.append(fac)
+        encs.append(inner_spec.enc() + (";" + "!".join(ops) if ops else ""))
+    if prefix:
+        facs = [EndpointPrefix("e1", facs)]
     m = Map(facs, strict_slashes=ms.strict, merge_slashes=ms.merge, redirect_defaults=ms.redirect_defaults)
     by = {}
     specs = {(r.string(), f"e{r.endpoint}", r.dom.text()): r for r in ms.rules}
     for ro in m.iter_rules():
         by[id(ro)] = specs[(ro.rule, ro.endpoint, ro.subdomain or "")]
     m._verif_objs = list(m.iter_rules())
-    return m, by
+    return m, by, ms, "+".join(encs)
 
 
 def enc_value(v) -> str:
@@ -368,10 +403,14 @@ def run(chk: Check) -> None:
         ms = gen_map_c04(rng)
         try:
             if rng.random() < 0.3 and not ms.host_matching:
-                m, by_obj = make_with_factories(ms)
+                m, by_obj, ms, menc = make_with_factories(ms, rng)
                 chk.count("map:factories")
+                for tag, key in (("!E", "endpoint-prefix"), (";T", "rule-template"), (";M", "submount"), ("!DL", "subdomain"), (";DL", "subdomain")):
+                    if tag in menc:
+                        chk.count("map:factory:" + key)
             else:
                 m, by_obj = ms.make()
+                menc = ms.enc()
         except Exception as e:  # noqa: BLE001
             chk.fail("map-construction", f"{type(e).__name__}: {e}", {"map": ms.describe()})
             continue
@@ -416,7 +455,7 @@ def run(chk: Check) -> None:
                 url, obs = None, "TIMEOUT"
             except Exception as e:  # noqa: BLE001
                 url, obs = None, "EXN " + type(e).__name__
-            lines.append(f"build {ms.cfg()} {ms.enc()} {ad.enc()} {r.endpoint} {enc_vals(given)} {'~' if meth is None else cps(meth)} {int(fe)}")
+            lines.append(f"build {ms.cfg()} {menc} {ad.enc()} {r.endpoint} {enc_vals(given)} {'~' if meth is None else cps(meth)} {int(fe)}")
             expect.append(obs)
             info = {"map": ms.describe(), "adapter": {"scheme": ad.scheme, "server": ad.server, "script": ad.script, "subdomain": ad.subdomain, "query": None},
                     "endpoint": f"e{r.endpoint}", "values": {k: repr(v) for k, v in given.items()}, "force_external": fe, "path": None, "method": "GET"}
@@ -433,7 +472,7 @@ def run(chk: Check) -> None:
             info["path"] = path_info
             mobs = c03.run_impl(m, nxt, by_obj, path_info, "GET")
             # model: the same composition
-            lines.append(f"b2m {ms.cfg()} {ms.enc()} {ad.enc()} {r.endpoint} {enc_vals(given)} {cps('GET')}")
+            lines.append(f"b2m {ms.cfg()} {menc} {ad.enc()} {r.endpoint} {enc_vals(given)} {cps('GET')}")
             expect.append(mobs)
             if r.methods is not None and "GET" not in r.methods:
                 continue
@@ -465,20 +504,48 @@ def run(chk: Check) -> None:
                     chk.fail("match-then-build", f"matched {path_info!r} -> {vals2!r}; rebuilt {url2!r} != {url1!r}", info)
             except Exception as e:  # noqa: BLE001
                 chk.fail("match-then-build", f"rebuild raised {type(e).__name__}: {e}", info)
-            # extra query values
-            if rng.random() < 0.3:
-                extras = {rng.choice(["q", "x y", "é", "a&b"]): rng.choice(["1", "a b", "é/ü", "50%", "x=y&z", ["1", "2"]])}
+            # extra query values: Rule.build(values, append_unknown=True) -> _encode_query_vars -> werkzeug.urls._urlencode
+            if rng.random() < 0.45:
+                pool_v = ["1", "a b", "é/ü", "50%", "x=y&z", ["1", "2"], 7, -3, None, ["b", None, "a"], [], "", "?#", [2, "x"]]
+                extras = {}
+                for _k in range(rng.randint(1, 3)):
+                    extras[rng.choice(["q", "x y", "é", "a&b", "b", "a", "Z"])] = rng.choice(pool_v)
                 extras = {k: v for k, v in extras.items() if k not in given and k not in dict(r.defaults) and k not in [n for n, _ in r.convs()]}
                 if extras:
+                    flat = [(k, x) for k, v in extras.items() if v is not None for x in (v if isinstance(v, list) else [v])]
+                    all_str = all(isinstance(x, str) for _, x in flat)
+                    srt = rng.choice([0, 0, 1, 2]) if all_str else rng.choice([0, 0, 1])
+                    m.sort_parameters, m.sort_key = (srt != 0), ((lambda kv: kv[0]) if srt == 1 else None)
                     try:
                         urlq = a.build(f"e{r.endpoint}", {**given, **extras}, method=meth, force_external=fe)
+                        qobs = "U " + cps(urlq)
                         q = urlsplit(urlq).query
-                        want = [(k, x) for k, v in extras.items() for x in (v if isinstance(v, list) else [v])]
-                        if parse_qsl(q, keep_blank_values=True) != want or urlq.split("?")[0] != url:
-                            chk.fail("query-extras", f"extras {extras!r} -> {urlq!r}", info)
+                        want = [(k, str(x)) for k, x in flat if x is not None]
+                        if srt == 1:
+                            want = sorted(want, key=lambda kv: kv[0])
+                        elif srt == 2:
+                            want = sorted(want)
+                        # the oracle: the path is the URL built without the extras; the query string decodes to the extras
+                        if parse_qsl(q, keep_blank_values=True) != want or urlq.split("?")[0] != url or (not want) != ("?" not in urlq):
+                            chk.fail("query-extras", f"extras {extras!r} (sort mode {srt}) -> {urlq!r}, expected items {want!r}", info)
                     except Exception as e:  # noqa: BLE001
+                        qobs = "EXN " + type(e).__name__
                         chk.fail("query-extras", f"build with extras raised {type(e).__name__}: {e}", info)
+                    finally:
+                        m.sort_parameters, m.sort_key = False, None
+
+                    def enc_x(v):
+                        if v is None:
+                            return "N"
+                        if isinstance(v, list):
+                            return "L" + ("/".join("N" if x is None else enc_value(x) for x in v) if v else "_")
+                        return enc_value(v)
+                    lines.append(f"buildq {srt} {ms.cfg()} {menc} {ad.enc()} {r.endpoint} {enc_vals(given)} "
+                                 + "|".join(f"{cps(k)}={enc_x(v)}" for k, v in extras.items())
+                                 + f" {'~' if meth is None else cps(meth)} {int(fe)}")
+                    expect.append(qobs)
                     chk.count("build:extras")
+                    chk.count(f"build:extras:sort{srt}")
 
     # ---------------- model side
     exe = chk.build_modelrun("C04")
@@ -505,7 +572,7 @@ def main(chk: Check) -> None:
     except px.Unsupported as e:
         chk.broken("translator", "C03/Gen.v", str(e))
     chk.forbidden_scan()
-    if chk.coq_make(["C04/Proofs.vo", "C04/MapProofs.vo", "C04/SubdomainProofs.vo", "C04/Extract.vo"]):
+    if chk.coq_make(["C04/Proofs.vo", "C04/MapProofs.vo", "C04/SubdomainProofs.vo", "C04/FactoryProofs.vo", "C04/Extract.vo"]):
         chk.audit_props("C04/Props.v")
     else:
         chk.cov["obligations"] += 1
